@@ -156,8 +156,10 @@ func (c *controller) convergeBalancer(l log.Logger, key string, svc *v1.Service)
 		}
 	}
 
-	// If svc currently has 1 ip and policy PreferDualStack, try assigning ip from the missing family and same pool
-	if len(lbIPs) == 1 && familyPolicy == v1.IPFamilyPolicyPreferDualStack {
+	// If svc currently has 1 ip and policy PreferDualStack, try assigning ip from the missing family and same pool.
+	// Only a Service with dual-stack cluster IPs can keep such a pair: with single-stack cluster IPs the next
+	// re-sync takes the two addresses for a family change (see serviceFamilyChanged) and clears them again.
+	if len(lbIPs) == 1 && familyPolicy == v1.IPFamilyPolicyPreferDualStack && hasDualStackClusterIPs(svc) {
 		level.Info(l).Log("event", "tryAssignAdditionalIP", "msg", "familyPolicy is PreferDualStack, trying to assign additional ip")
 		currentPool := c.ips.Pool(key)
 		// Try assigning a new ip with the missing stack and from the same pool.
@@ -215,6 +217,12 @@ func (c *controller) convergeBalancer(l log.Logger, key string, svc *v1.Service)
 	svc.Annotations[AnnotationIPAllocateFromPool] = pool
 
 	return nil
+}
+
+// hasDualStackClusterIPs tells whether the cluster IPs of the service are a dual-stack pair.
+func hasDualStackClusterIPs(svc *v1.Service) bool {
+	family, err := ipfamily.ForService(svc)
+	return err == nil && family == ipfamily.DualStack
 }
 
 // serviceFamilyChanged determines if lbIP has different ipfamily
